@@ -406,6 +406,13 @@ def structure_ops(ctx, n):
             and r[1].free_indices == nf + 1
         if not good:
             ctx.disagree("C19:expand_dims", desc, (pos, [nf + 1 + c for c in cov]), r[1:3] if r[0] != "ok" else (r[1].array.shape, sorted(r[1]._covariant_indices)), replay=[desc])
+        else:
+            # the Lean model of the index bookkeeping (Geo.Indexing.expandDimsTypes, about which T19_expand_dims_types is) on the same input
+            cov0 = sorted(C._covariant_indices)
+            con0 = sorted(C._contravariant_indices)
+            ans = run_driver([f"expanddims {pos} {natlist(cov0)} {natlist(con0)}"])[0].split(" ")
+            if ans[0] != "ok" or dec_natlist(ans[1]) != sorted(r[1]._covariant_indices) or dec_natlist(ans[2]) != sorted(r[1]._contravariant_indices):
+                ctx.disagree("C19:expand_dims:model-vs-code", desc, " ".join(ans), (sorted(r[1]._covariant_indices), sorted(r[1]._contravariant_indices)), replay=[desc])
 
 
 def tensor_product_stream(ctx, n):
